@@ -166,6 +166,13 @@ def rule_lookahead_restores(ctx, rep, rid: str, modules: Tuple[str, ...] = ("par
                     mv, p = bad
                     rep.bad(rid, key, f"{m.qual} moves the cursor at line {mv.line} and can return through lines {[x.line for x in p if x.line][:8]} without putting it back (its other exits restore it): the caller continues parsing from wherever the look-ahead stopped", f"{m.module.rel}:{mv.line}")
     if n < 2:
+        # a parser whose look-aheads read from a lexer of their own never moves the parser's cursor backwards:
+        # nothing to restore.  That is the case when no method of the front end writes the lexer's position.
+        rewinds = [a for modname in ("parser",) for ci in ctx.tree.mod(modname).classes.values() for m in ci.all_methods if not isinstance(m.node, ast.Lambda) for a in m.own_nodes() if isinstance(a, ast.Assign) and any(norm(t).endswith("lexer.pos") or norm(t) == "self.pos" for t in a.targets)]
+        if n == 0 and not rewinds:
+            rep.ok(rid, "look-ahead:no-rewind", {"note": "no method of the parser writes the lexer position: look-ahead does not move the parser's own cursor"})
+            rep.ok(rid, "look-ahead:no-rewind:2", {"note": "see above"})
+            return
         raise AnalysisError(f"only {n} look-ahead helper(s) that restore the cursor found")
 
 
@@ -316,3 +323,74 @@ def rule_borrowed_slot_restored(ctx, rep, rid: str, where, what: str, floor: int
                 o, p = bad
                 rep.bad(rid, key, f"{m.qual} saves {obj}.{slot} in `{local}`, overwrites it at line {o.line} and can return through lines {[x.line for x in p if x.line][:8]} without putting it back (its other exits restore it): the object the script passed in comes back changed", f"{m.module.rel}:{o.line}")
     rep.ok(rid, "borrowed-slots", {"save_overwrite_restore_patterns": n})
+
+
+# ---- what a finally block gives back was taken before the try was entered -------------------------------------------
+def _counter_text(t: ast.AST) -> str:
+    return norm(t)
+
+
+def _undo_ops(stmts: List[ast.stmt]) -> List[Tuple[str, str, ast.AST]]:
+    """('pop', list text, node) / ('dec', counter text, node) for the statements of a finally block (its if-arms included)."""
+    out = []
+    for st in stmts:
+        for x in ast.walk(st):
+            if isinstance(x, ast.Expr) and isinstance(x.value, ast.Call) and isinstance(x.value.func, ast.Attribute) and x.value.func.attr == "pop" and not x.value.args and norm(x.value.func.value).startswith("self."):
+                out.append(("pop", norm(x.value.func.value), x))
+            if isinstance(x, ast.AugAssign) and isinstance(x.op, ast.Sub) and isinstance(x.value, ast.Constant) and x.value.value == 1 and norm(x.target).startswith("self."):
+                out.append(("dec", _counter_text(x.target), x))
+    return out
+
+
+def _does(ctx, f: Func, st: ast.stmt, kind: str, what: str, depth: int = 0) -> Optional[Tuple[ast.AST, bool]]:
+    """(node, can refuse first) when statement st performs the matching acquisition: an append to the list / an
+    increment of the counter, directly or through a method of the same class (which may refuse - raise - before it)."""
+    for x in ast.walk(st):
+        if kind == "pop" and isinstance(x, ast.Call) and isinstance(x.func, ast.Attribute) and x.func.attr == "append" and norm(x.func.value) == what:
+            return x, False
+        if kind == "dec" and isinstance(x, ast.AugAssign) and isinstance(x.op, ast.Add) and norm(x.target) == what:
+            return x, False
+        if isinstance(x, ast.Call) and isinstance(x.func, ast.Attribute) and norm(x.func.value) == "self" and f.cls is not None and depth < 2:
+            h = ctx.tree.find_method(f.cls, x.func.attr)
+            if h is not None and not isinstance(h.node, ast.Lambda):
+                for hs in h.node.body:
+                    r = _does(ctx, h, hs, kind, what, depth + 1)
+                    if r is not None:
+                        refuses = any(isinstance(y, ast.Raise) and y.lineno < r[0].lineno for y in h.own_nodes())
+                        return x, refuses or r[1]
+    return None
+
+
+def rule_undo_only_what_was_done(ctx, rep, rid: str, where=lambda f: f.module.name in ("vm", "context", "values")) -> None:
+    """try/finally gives back what was taken: a counter is decremented, a marker popped.  The taking belongs BEFORE the
+    try: inside it, a refusal (the host-level guard raising MemoryLimitError) runs the finally although nothing was
+    taken, and the counter and the marker list drift by one per refusal - the next pop finds an empty list."""
+    rep.rule(rid, "where a finally block pops a list of the interpreter or decrements one of its counters, the matching append / increment is made before the try statement is entered (or inside it by a step that cannot refuse): a refused acquisition never runs the release (generator context managers are read as the statements they stand for)", floor=3)
+    n = 0
+    for f in ctx.tree.funcs:
+        if isinstance(f.node, ast.Lambda) or not where(f):
+            continue
+        for tr in f.own_nodes():
+            if not (isinstance(tr, ast.Try) and tr.finalbody):
+                continue
+            for kind, what, node in _undo_ops(tr.finalbody):
+                n += 1
+                key = f"{f.qual}:finally {short(node, 40)}@{tr.lineno}"
+                inside = None
+                for i, st in enumerate(tr.body):
+                    r = _does(ctx, f, st, kind, what)
+                    if r is not None:
+                        inside = (i, st, r)
+                        break
+                if inside is None:
+                    rep.ok(rid, key, {"acquired": "before the try"})
+                    continue
+                i, st, (x, refuses) = inside
+                earlier_can_raise = any(isinstance(y, (ast.Call, ast.Raise)) for s0 in tr.body[:i] for y in ast.walk(s0))
+                if refuses or earlier_can_raise:
+                    rep.bad(rid, key, f"{f.qual}: the finally block runs `{short(node, 40)}`, but the matching acquisition `{short(x, 40)}` is made inside the try and {'can refuse (raise) before it has taken anything' if refuses else 'comes after steps that can raise'}: when it does, the release runs for something that was never taken - the counter goes below its level, and a later pop finds the list empty (IndexError out of eval in place of the MemoryLimitError)", f"{f.module.rel}:{getattr(x, 'lineno', tr.lineno)}")
+                else:
+                    rep.ok(rid, key, {"acquired": "first thing inside the try, by a step that cannot refuse"})
+    rep.analysed["finally_releases"] = n
+    if n < 3:
+        raise AnalysisError(f"{rid}: only {n} releasing finally blocks found")
